@@ -269,6 +269,14 @@ def handle (toks : List String) : String :=
       | .ok (f, cols) => s!"{showRatList f} {" ".intercalate (cols.map showRatList)}"
       | .error e => showErr e
     | _, _, _ => bad
+  | ["sym.jacf", par, bits, r] =>
+    match par.toNat?, bits.toNat?, parseRatList r with
+    | some p, some b, some r => showExcept showRatList (jacF p b r)
+    | _, _, _ => bad
+  | ["sym.jaccol", par, bits, j, r] =>
+    match par.toNat?, bits.toNat?, j.toNat?, parseRatList r with
+    | some p, some b, some j, some r => showExcept showRatList (jacCol p b r j)
+    | _, _, _, _ => bad
   | ["newton.exit", crit, maxiter, errs] =>
     match parseRat crit, parseRat maxiter, parseRatList errs with
     | some c, some m, some es =>
